@@ -85,6 +85,23 @@ def replay(pid, unit, cex, path):
                 bad.append("add_preserves_topk_invariant")
             return bad, path, nat
         return [], path, {"error": "no native replay for heap op %s" % op}
+    if model == "kernel" and cex.get("op") == "add_hashed":
+        txt = "\n".join(["# engine: M", "exec hll", "b %d" % cex["b"], "h %d" % cex["h"], "old %d" % cex.get("old", 0)]) + "\n"
+        nat = mrun.native_exec(txt, path)
+        if nat.get("error"):
+            return [], path, nat
+        b, h = cex["b"], cex["h"]
+        w = h >> b
+        rank = (64 - b + 1) if w == 0 else (64 - b) - (w.bit_length() - 1) + 0
+        if w != 0:
+            rank = (64 - b) - w.bit_length() + 1
+        bad = []
+        if nat["result"] == "panic":
+            return ["panic"], path, nat
+        if nat["reg_j"] != max(cex.get("old", 0), rank): bad.append("register_is_max_of_old_and_rank")
+        if not nat["others_unchanged"]: bad.append("other_registers_unchanged")
+        if nat["len"] != (1 << b): bad.append("len_and_b_unchanged")
+        return bad, path, nat
     if model == "serde":
         txt = "\n".join(["# engine: M", "exec serde", "doc " + ",".join(cex["doc"]), "b %d" % cex["b"], "len %d" % cex["len"]]) + "\n"
         nat = mrun.native_exec(txt, path)
